@@ -366,7 +366,7 @@ POOLT_STREAM = {"name": "poolt", "quick": 40, "thorough": 1500, "sep": ";", "bat
                 "exhaustive": "poolt-exhaustive", "exhaustive_always": True,
                 "nontrivial": pool_nontrivial, "distribution": pool_dist}
 POOL_RULE = ("random schedules (6-34 ops + drain/probe phase) of issue / poll / cancel / dial ok|ok+ALPN-h2|fail-connect|fail-handshake / "
-             "(ok-but-not-shareable also for an HTTP/2 request) / response arrives / connection-ready / connection-close / run-tasks / real-time tick over 1-3 origins (differing in scheme, port, "
+             "(ok-but-not-shareable also for an HTTP/2 request) / response arrives / connection-ready / connection-close / run-tasks / runtime-shutdown (every spawned task dropped, the pool lives on; 1 case in 40) / real-time tick over 1-3 origins (differing in scheme, port, "
              "host, letter case), HTTP/1.1 and HTTP/2 mixed, max_idle in {0,1,2,3,32}, both continue_after_preemption settings, idle "
              "timeout none/0/sub-millisecond/50ms/long, through the public ConnectionPoolService over hyperdriver's own RequestExecutor with scripted "
              "Transport/Protocol/Connection (response arrival and readiness scripted independently; timed cases include released "
@@ -495,7 +495,7 @@ PROPS = {
     "C02": pool_prop("HdModel.Props.C02", ["C02/"], ["Hd.Pool.C02_one_holder", "Hd.Pool.C02_held_out_of_pool", "Hd.Pool.C02_pooled_once",
         "Hd.Pool.C02_available_means_ready", "Hd.Pool.C02_busy_not_available", "Hd.Pool.C02_handout_ready",
         "Hd.Pool.step_lininv", "Hd.Pool.run_lininv", "Hd.Pool.step_ready", "Hd.Pool.run_ready", "Hd.Pool.C02_single_delivery", "Hd.Pool.C02_delivered_not_idle",
-        "Hd.Pool.C02_handback_only_when_ready", "Hd.Pool.C02_pop_not_busy", "Hd.Pool.C02_exec_marks_busy", "Hd.Pool.C02_open_means_ready"], timed=True, mt=True, leaf=True),
+        "Hd.Pool.C02_handback_only_when_ready", "Hd.Pool.C02_pop_not_busy", "Hd.Pool.C02_exec_marks_busy", "Hd.Pool.C02_open_means_ready", "Hd.Pool.C02_dropped_handback_returns_nothing"], timed=True, mt=True, leaf=True),
     "C03": pool_prop("HdModel.Props.C03", ["C03/"], ["Hd.Pool.C03_waiter_only_while_attempt_in_flight", "Hd.Pool.C03_waiter_poll",
         "Hd.Pool.step_waiters", "Hd.Pool.run_waiters", "Hd.Pool.C03_cancel_releases", "Hd.Pool.C03_owner_drop_cancels",
         "Hd.Pool.C03_released_waiter_resolves", "Hd.Pool.C03_released_dialer_continues", "Hd.Pool.C03_resolves_when_attempt_done",
